@@ -977,7 +977,10 @@ func (ds *AnySource) PrepareRun(Npresamples int, Nsamples int) error {
 
 	// Load last trigger state from config file
 	var fts []FullTriggerState
-	if err := viper.UnmarshalKey("trigger", &fts); err != nil {
+	configLock.Lock()
+	err := viper.UnmarshalKey("trigger", &fts)
+	configLock.Unlock()
+	if err != nil {
 		// could not read trigger state from config file.
 		fts = []FullTriggerState{}
 	}
